@@ -799,6 +799,21 @@ func (fc *FC) mergeAt(j *ssa.BasicBlock, valOf func(p *ssa.BasicBlock) *RF) *RF 
 	return r
 }
 
+// structOf: the struct value a pointer designates, for pointers that are not
+// tracked cells (a pointer atom stands for its pointee; nested field
+// addresses project).
+func (fc *FC) structOf(ptr ssa.Value) *RF {
+	if fa, ok := ptr.(*ssa.FieldAddr); ok {
+		st := fa.X.Type().Underlying().(*types.Pointer).Elem()
+		return fc.X.fieldOf(fc.structOf(fa.X), st, fa.Field)
+	}
+	v := fc.Val(ptr)
+	if at := v.SingleAtom(); at != nil && at.Name == "ref" {
+		return at.Args[0]
+	}
+	return v
+}
+
 // structAt: the value of the struct held in local cell al just before `at`.
 func (fc *FC) structAt(al *ssa.Alloc, at ssa.Instruction) *RF {
 	t := al.Type().Underlying().(*types.Pointer).Elem()
@@ -852,10 +867,10 @@ func (fc *FC) load(u *ssa.UnOp) *RF {
 		if c, t, ok := fc.cellOf(a); ok {
 			return fc.cellValue(c, t, u)
 		}
-		// field of some other pointer value (not tracked through stores)
-		base := fc.Val(a.X)
+		// field of some other pointer value (not tracked through stores):
+		// the pointer stands for the struct it points to
 		st := a.X.Type().Underlying().(*types.Pointer).Elem()
-		return x.fieldOf(s.MakeFn("deref", base), st, a.Field)
+		return x.fieldOf(fc.structOf(a.X), st, a.Field)
 	case *ssa.Parameter:
 		// whole-struct load through a pointer parameter
 		t := a.Type().Underlying().(*types.Pointer).Elem()
@@ -1067,8 +1082,10 @@ func (x *Extractor) Invoke(method string, args ...*RF) *RF {
 
 func (x *Extractor) callClosure(mc *ssa.MakeClosure, args []*RF, parent *FC) *RF {
 	f := mc.Fn.(*ssa.Function)
-	if r := x.inline(f, args, parent); r != nil {
-		return r
+	if !x.NoInline[x.W.FuncName(f)] {
+		if r := x.inline(f, args, parent); r != nil {
+			return r
+		}
 	}
 	return x.S.MakeFn("apply", append([]*RF{x.S.Var("closure:"+x.W.FuncName(f), false)}, args...)...)
 }
